@@ -98,15 +98,14 @@ FnValue(o, X) == CASE o.op = "Pow" -> MPow(X, o.k)
                    [] o.op = "Apply" -> MApply(X)
                    [] o.op = "Inverse" -> InvUni(X)
 
-\* Outcome class for a receiver that is a DISTINCT window of the argument's parent.  Scale, Apply and
-\* Inverse read the argument while they write the receiver, so the Expect table of MatAlias applies
-\* literally (a partial overlap must panic).  Pow belongs to the Isolated class of MatAlias: nothing of
-\* a is read for k = 0, k = 1 is a copy (Dense.Copy is direction aware), and from k = 3 on the power is
-\* formed in work space and copied into the receiver at the end; only k = 2 (a Mul) reads a while writing.
-\* For that class the demand is the property's last sentence: the call may refuse (region panic, nothing
-\* written) or return, and a returned result must be the exact power with nothing outside the receiver
-\* changed.
-IsolatedFn == {"Pow"}
+\* Outcome class for a receiver that is a DISTINCT window of the argument's parent.  The Expect table of
+\* MatAlias applies literally to all four methods: a partial overlap must panic with nothing written (the
+\* property: "a receiver whose storage partially overlaps an operand's elements panics instead of returning").
+\* Pow used to be accepted either way (class Isolated), because gonum checked no overlap for k # 2: it
+\* returned the exact power but overwrote the overlapped part of a, an operand that is not the receiver.
+\* That was a genuine defect (finding C05-Fpowovl, repaired: Pow now checks the overlap like Scale / Apply),
+\* so the class is empty again.
+IsolatedFn == {}
 ExpectFn(o, rel) == IF o.op \in IsolatedFn THEN ExpectIso(rel, TRUE) ELSE Expect(rel, TRUE)
 
 \* rk: "fresh" zero value | "sized" own storage | "win" window w1 of the parent, a distinct Go value |
